@@ -238,3 +238,66 @@ Fixpoint read_under_write (s : rst) (sched : list nat) : bool :=
       (match t, r_w s, r_r s with S O, W1, R0 => true | _, _, _ => false end)
       || read_under_write (rstep t s) r
   end.
+
+(* ------------------------------------------------------------------------------------ *)
+(** * (f) read guards and synchronous reads of an async derived value overlapping the completion
+    of a reload.  `set_inner_value` = `*value.write().await = new` (the replaced value is dropped
+    inside the write lock: its user `Drop` is the yield point "user:value_drop"); synchronous
+    reads (`AsyncPlain::try_new`) take the lock with the BLOCKING `blocking_read_arc`.
+    The value is 1, the reload stores 2. *)
+
+(** (f1) thread 1 holds a synchronous read guard until a task queued BEHIND the reload on the
+    executor thread 0 releases it: the value's task must suspend (Pending), not park thread 0 *)
+Record hst := mkH {
+  h_val : Z; h_readers : nat; h_wwait : bool; h_dwoken : bool; h_go : bool;
+  h_p0 : nat;              (* 0 before the completion poll, 1 at "op", 2 polling when woken *)
+  h_p1 : nat;              (* 0 before taking the guard, 1 holding it, 2 done *)
+  h_got : Z;
+}.
+Definition hstep (t : nat) (s : hst) : hst :=
+  match t with
+  | O =>
+      match h_p0 s with
+      | O => if (h_readers s =? 0)%nat
+             then mkH 2 0%nat false (h_dwoken s) (h_go s) 1%nat (h_p1 s) (h_got s)
+             else mkH (h_val s) (h_readers s) true false (h_go s) 1%nat (h_p1 s) (h_got s)
+      | S O => mkH (h_val s) (h_readers s) (h_wwait s) (h_dwoken s) true 2%nat (h_p1 s) (h_got s)
+      | _ => if h_dwoken s && h_wwait s && (h_readers s =? 0)%nat
+             then mkH 2 0%nat false false (h_go s) 2%nat (h_p1 s) (h_got s)
+             else mkH (h_val s) (h_readers s) (h_wwait s) false (h_go s) (h_p0 s) (h_p1 s) (h_got s)
+      end
+  | S O =>
+      match h_p1 s with
+      | O => mkH (h_val s) (S (h_readers s)) (h_wwait s) (h_dwoken s) (h_go s) (h_p0 s) 1%nat (h_got s)
+      | S O => if h_go s
+               then mkH (h_val s) (pred (h_readers s)) (h_wwait s)
+                        (if h_wwait s then true else h_dwoken s) (h_go s) (h_p0 s) 2%nat (h_val s)
+               else s
+      | _ => s
+      end
+  | _ => s
+  end.
+Definition hrun (s : hst) (sched : list nat) : hst := fold_left (fun s t => hstep t s) sched s.
+Definition hinit : hst := mkH 1 0%nat false false false 0%nat 0%nat 0.
+
+(** (f2) thread 1 reads synchronously while the value's task (thread 0) stands in the `Drop`
+    of the replaced value, holding the write lock: the read blocks and returns the new value *)
+Record dst := mkD { d_val : Z; d_wheld : bool; d_p0 : nat; d_p1 : nat (* 0 start, 1 blocked, 2 done *); d_got : Z }.
+Definition dstep (t : nat) (s : dst) : dst :=
+  match t with
+  | O =>
+      match d_p0 s with
+      | O => mkD (d_val s) true 1%nat (d_p1 s) (d_got s)
+      | S O => if (d_p1 s =? 1)%nat then mkD 2 false 2%nat 2%nat 2 else mkD 2 false 2%nat (d_p1 s) (d_got s)
+      | _ => s
+      end
+  | S O =>
+      match d_p1 s with
+      | O => if d_wheld s then mkD (d_val s) true (d_p0 s) 1%nat (d_got s)
+             else mkD (d_val s) false (d_p0 s) 2%nat (d_val s)
+      | _ => s
+      end
+  | _ => s
+  end.
+Definition drun (s : dst) (sched : list nat) : dst := fold_left (fun s t => dstep t s) sched s.
+Definition dinit : dst := mkD 1 false 0%nat 0%nat 0.
